@@ -155,9 +155,20 @@ def run(tier):
     orc = chem.Oracle()
     r = C.rng(PROP)
     trees = make_trees(r, tier)
-    texts = [T.render(t) + sfx for t, sfx in trees]
+    # the reducing-end anomer given by the root_orientation option instead of the suffix: same glycan, so the same
+    # specification (tree with the suffixed root); includes roots whose anomeric oxygen itself carries a child
+    by_option = {}
+    n0 = len(trees)
+    for root, c1, poss in (("Araf", 1, (1, 2, 3, 5)), ("Sorf", 2, (2, 1, 3)), ("Kdn", 2, (2, 4, 8)), ("Glc", 1, (1, 4)), ("Fruf", 2, (2, 1)),
+                           ("Neu5Ac", 2, (2, 8)), ("Galf", 1, (1, 5)), ("Pen", 1, (1, 2))):
+        T.RES.setdefault(root, (c1, tuple(poss), (), "opt-root"))
+        for p_ in (poss if tier == "thorough" else poss[:2]):
+            for an in "ab":
+                by_option[len(trees)] = an
+                trees.append((T.Node(root, [(r.choice("ab"), 1, p_, T.Node(r.choice(["Glc", "Gal", "Man"])))]), " " + an))
+    texts = [(T.render(t) if i in by_option else T.render(t) + sfx) for i, (t, sfx) in enumerate(trees)]
     names = sorted(set(n for t, sfx in trees for n in (res_names(t)[1:] + [t.name + sfx])))
-    outs = C.run_impl_parallel("merge_trace", [{"iupac": x} for x in texts])
+    outs = C.run_impl_parallel("merge_trace", [{"iupac": x, "kw": ({"root_orientation": by_option[i]} if i in by_option else {})} for i, x in enumerate(texts)])
     singles = chem.convert_all(names)
     single = {n: o["smiles"] for n, o in zip(names, singles)}
     stats = {"denotes": 0, "nospec": 0, "noref": 0, "nodes_compared": 0}
